@@ -1097,8 +1097,8 @@ func (ws *wsConn) Read(p []byte) (n int, err error) {
 	}
 	n = copy(p, ws.buf[ws.r:])
 	ws.r += n
-	// reset reader buffer
-	if ws.r+1 >= len(ws.buf) {
+	// reset reader buffer once every byte of the message has been consumed
+	if ws.r >= len(ws.buf) {
 		ws.buf = nil
 		ws.r = 0
 	}
